@@ -174,7 +174,7 @@ class export_token:
         return cell_text(node, options)
 
 
-@contract(None, props=['C04', 'C05', 'C14'])
+@contract(None, props=['C04', 'C05', 'C13', 'C14'])
 class export_token_history:
     """An Exporter object may serve several exports (Exporter.get_spine_types exports with its own options through the same object;
     a caller may keep one exporter): a cell's text must not depend on what the object exported before.  Two consecutive calls on
